@@ -31,6 +31,31 @@ def spec_wrap():
                   ensures=['-L / 2 <= result and result < L / 2', 'result == x or result == x - L or result == x + L'])
 
 
+def wrap_replayer(obl, model):
+    """the real wrap() on the model's (x, L) when they are exactly representable, and on a battery of face / near-face values"""
+    from fractions import Fraction
+    from abacusnbody.hod.GRAND_HOD import wrap
+    f = getattr(wrap, 'py_func', wrap)
+    cands = []
+    if model:
+        try:
+            x, L = Fraction(str(model.get('x'))), Fraction(str(model.get('L')))
+            if float(x) == x and float(L) == L:
+                cands.append((float(x), float(L)))
+        except (ValueError, TypeError, ZeroDivisionError):
+            pass
+    for L in (1000.0, 2.0, 7.5, 0.25):
+        for x in (L / 2, -L / 2, 0.0, L, -L, 3 * L / 4, -3 * L / 4, 1.25 * L, -1.5 * L, L / 2 + L / 1024, -L / 2 - L / 1024):
+            cands.append((x, L))
+    for x, L in cands:
+        if not (L > 0 and -1.5 * L <= x < 1.5 * L):
+            continue
+        r = f(x, L)
+        if not (-L / 2 <= r < L / 2) or r not in (x, x - L, x + L):
+            return True, f'wrap({x}, {L}) = {r}: outside [-L/2, L/2) or not a whole-box shift'
+    return False, 'no case reproduced'
+
+
 def spec_concat(mode):
     """mode: 'serial' (Nthread == 1) or 'parallel' (Nthread >= 2)"""
     req = ['len(array1) >= 1', 'len(array2) >= 1', 'Nthread == 1' if mode == 'serial' else 'Nthread >= 2']
@@ -333,7 +358,7 @@ def bounded(run, prop):
 
 def check(run):
     run.level = 'other'
-    run.prove(spec_wrap())
+    run.prove(spec_wrap(), wrap_replayer)
     for m in ('serial', 'parallel'):
         run.prove(spec_concat(m))
     for w in (1, 2):
